@@ -4,9 +4,11 @@
 (* as an `if` condition and as an inline (ternary) condition.                   *)
 EXTENDS LiquidGen, LiquidAst
 
+CONSTANT Variant    \* "ops" (operators over all value pairs) | "trees" (all and/or/not trees, truthy/falsy operands)
+
 Vals == {Nil, Bool(TRUE), Bool(FALSE), IntV(0), IntV(1), IntV(2), Str(""), Str("a"), Str("b"), Str(" "),
          Arr(<<>>), Arr(<<IntV(1)>>), Arr(<<Str("a"), Str("b")>>), Hash(<< <<"a", IntV(1)>> >>), Range(1, 2)}
-MCData == {<< <<<<"x", vx>>, <<"y", vy>>>>, <<>>, <<>>, <<>> >> : vx \in Vals, vy \in Vals}
+MCData == {<< <<<<"x", vx>>, <<"y", vy>>>>, <<>>, <<>>, <<>> >> : vx \in Vals, vy \in (IF Variant = "trees" THEN {Nil, IntV(1)} ELSE Vals)}
           \cup {<< <<<<"y", vy>>>>, <<>>, <<>>, <<>> >> : vy \in {Nil, IntV(1), Str("a")}}
 MCCfgs == {Cfg("+", TRUE, FALSE, "default")}
 MCPartials == <<>>
@@ -24,12 +26,18 @@ Logic == {And(a, b) : a \in {X, Cmp("==", X, Y)}, b \in {Y, Not(Y), Cmp("<", X, 
                Or(X, And(Y, FalseE)), And(Or(X, Y), FalseE), Or(And(X, FalseE), Y), And(X, Or(Y, FalseE)),
                Or(Or(X, Y), FalseE), And(And(X, Y), TrueE), Or(FalseE, Or(X, Y)), And(Not(X), Y), Or(Not(X), Y),
                And(X, Cmp("==", Y, I(1))), Or(Cmp(">=", X, I(1)), Cmp("<=", Y, I(1)))}
-Conds == Atoms \cup Cmps \cup Logic
+\* every tree of depth <= 2 over and / or / not (grouping and its serialisation, C12)
+T1 == {X, Y, Not(X), Not(Y), And(X, Y), Or(X, Y), Not(And(X, Y)), Not(Or(X, Y))}
+Trees == {And(l, r) : l \in T1, r \in T1} \cup {Or(l, r) : l \in T1, r \in T1}
+Conds == Atoms \cup Cmps \cup Logic \cup Trees
 
-MCPool == {If(c, <<NText("T")>>, <<>>, Else(<<NText("F")>>)) : c \in Conds}
+OpsPool == {If(c, <<NText("T")>>, <<>>, Else(<<NText("F")>>)) : c \in Atoms \cup Cmps \cup Logic}
           \cup {Unless(c, <<NText("T")>>, <<>>, Else(<<NText("F")>>)) : c \in Cmps}
           \cup {NOut(Tern(F(S("T"), <<>>), c, S("F"), <<>>, <<>>)) : c \in Cmps \cup Logic}
           \cup {NOut(Tern(F(X, <<>>), c, NoAltE, <<>>, <<Fl("default", <<S("D")>>)>>)) : c \in {Y, Cmp("==", X, Y)}}
           \cup {NOut(Tern(F(X, <<Fl("upcase", <<>>)>>), Y, X, <<Fl("append", <<S("!")>>)>>, <<Fl("prepend", <<S(">")>>)>>))}
+TreePool == {If(c, <<NText("T")>>, <<>>, Else(<<NText("F")>>)) : c \in Trees}
+            \cup {NOut(Tern(F(S("T"), <<>>), c, S("F"), <<>>, <<>>)) : c \in Trees}
+MCPool == IF Variant = "trees" THEN TreePool ELSE OpsPool
 MCPoolAt(i) == MCPool
 =============================================================================
